@@ -1,2 +1,91 @@
--- placeholder driver (model for C05 not built yet)
-def main : IO Unit := pure ()
+/-
+  Driver for the transport-loop model (C05), instantiated with the except-ladders extracted from the
+  current source (`Pyro.Gen.C05.cfg`).
+    loop <t|m> <mn> <mx> <nconn> <nev> {<ev>}*
+      ev   = K <conn>                               (connect)
+           | I <conn> <gone 0|1> <raw> <item>       (item; raw = cc|pt|pr|se|sc|os|st|ot|ki|bo)
+      item = G | X | T | M <type> <ser> <seq> <oneway> <body>          (as in Driver/C08.lean)
+      body = U | H <wf> <ok> <a|r|u> | C X | C R
+           | C M <token> <r|bs|bo|x> <g|s|c|o|y> <ser> <cb> <ann-list> <track-list> <untrack-list> <session>
+    → <running 0|1>|<len busy>|<idle>|<busy ids>|<registered ids>|<zombie ids>
+        then per connection " ; " phase|type:seq:ser:exc,...|execs|hook
+-/
+import PyroModel.ServerLoop
+import PyroModel.Gen.C05
+import Driver.Util
+
+open Pyro.Server Pyro.ServerLoop Driver
+
+def parseBody : List String → Option (Body × List String)
+  | "U" :: r => some (.undecodable, r)
+  | "H" :: wf :: ok :: v :: r =>
+    let val := if v == "a" then Validator.accept else if v == "r" then Validator.raises else Validator.unserialisableReply
+    some (.handshake (wf == "1") (ok == "1") val, r)
+  | "C" :: "X" :: r => some (.call .unknownObject, r)
+  | "C" :: "R" :: r => some (.call .refused, r)
+  | "C" :: "M" :: tok :: out :: exc :: ser :: cb :: ann :: tr :: un :: sess :: r => do
+    let token ← tok.toNat?
+    let e := if exc == "g" then Exc.generic else if exc == "s" then Exc.serialize else if exc == "c" then Exc.connClosed
+             else if exc == "o" then Exc.commOther else Exc.security
+    let outcome := if out == "r" then Outcome.returns .ok else if out == "bs" then Outcome.returns .serializeErr
+                   else if out == "bo" then Outcome.returns .otherErr else Outcome.raises e (ser == "1")
+    let ann ← parseNatList ann
+    let tr ← parseNatList tr
+    let un ← parseNatList un
+    some (.call (.method { token, outcome, isCallback := cb == "1", setsAnn := ann, tracks := tr, untracks := un, session := sess == "1" }), r)
+  | _ => none
+
+def parseItem : List String → Option (Item × List String)
+  | "G" :: r => some (.garbage, r)
+  | "X" :: r => some (.cut, r)
+  | "T" :: r => some (.timeout, r)
+  | "M" :: ty :: ser :: seq :: ow :: r => do
+    let ty ← ty.toNat?
+    let ser ← ser.toNat?
+    let seq ← seq.toNat?
+    let (b, r') ← parseBody r
+    some (.msg { type := ty, serId := ser, seq := seq, oneway := ow == "1", body := b }, r')
+  | _ => none
+
+def parseCls : String → Option Cls
+  | "cc" => some .connClosed | "pt" => some .pyroTimeout | "pr" => some .protocol | "se" => some .serialize
+  | "sc" => some .security | "os" => some .osError | "st" => some .sockTimeout | "ot" => some .other
+  | "ki" => some .keyboardInterrupt | "bo" => some .baseOther
+  | _ => none
+
+def parseEvs : Nat → List String → Option (List Ev)
+  | 0, [] => some []
+  | n + 1, "K" :: c :: r => do
+    let c ← c.toNat?
+    let rest ← parseEvs n r
+    some (.connect c :: rest)
+  | n + 1, "I" :: c :: gone :: raw :: r => do
+    let c ← c.toNat?
+    let raw ← parseCls raw
+    let (it, r') ← parseItem r
+    let rest ← parseEvs n r'
+    some (.item c it (gone == "1") raw :: rest)
+  | _, _ => none
+
+def showConn (c : Conn) : String :=
+  let ph := match c.phase with | .fresh => "fresh" | .active => "active" | .closed => "closed"
+  let reps := ",".intercalate (c.outbox.map fun r => s!"{r.type}:{r.seq}:{r.serId}:{if r.isExc then 1 else 0}")
+  s!"{ph}|{reps}|{natListToString c.execs}|{c.hookCalls}"
+
+def showLoop (l : Loop) : String :=
+  s!"{if l.running then 1 else 0}|{l.busy.length}|{l.idle}|{natListToString l.busy}|{natListToString l.registered}|{natListToString l.zombie}"
+    ++ String.join (l.conns.map fun c => " ; " ++ showConn c)
+
+def step' : List String → String
+  | "loop" :: k :: mn :: mx :: nc :: ne :: rest =>
+    match mn.toNat?, mx.toNat?, nc.toNat?, ne.toNat? with
+    | some mn, some mx, some nc, some ne =>
+      match parseEvs ne rest with
+      | some evs =>
+        let p : Params := { kind := if k == "t" then .thread else .multiplex, mn, mx, cfg := Pyro.Gen.C05.cfg }
+        showLoop (Pyro.ServerLoop.run p (init p nc []) evs)
+      | none => "bad-op"
+    | _, _, _, _ => "bad-op"
+  | _ => "bad-op"
+
+def main : IO Unit := runDriver step'
